@@ -1,6 +1,6 @@
 """C08 — reported match positions are valid and are a witness of the match."""
 ID = "C08"
-EXTRA_PROPS = ["AndMergeTables", "ReshapeFnsTables", "DisplayFnsTables", "EngineLoopTables"]   # merge_matched_items / range_char_indices as TRANSLATED from the source = the model
+EXTRA_PROPS = ["AndMergeTables", "ReshapeFnsTables", "DisplayFnsTables", "EngineLoopTables", "RankFeedTables", "C08Translated"]   # merge_matched_items / range_char_indices as TRANSLATED from the source = the model
 N_QUICK, N_THOROUGH = 12000, 500000
 STRICT_MODEL = True
 PARALLEL = 4
